@@ -47,9 +47,13 @@ def region_spec(rng):
         leaf = lambda: gen.pixel_region_spec(rng, classes=gen.MASKABLE, size=gen.logu(rng, 1, 50), include='absent',
                                              center=(rng.uniform(1, 30), rng.uniform(1, 30)))
         s = S.reg('CompoundPixelRegion', region1=leaf(), region2=leaf(), operator=rng.choice(['and', 'or', 'xor']))
+        if rng.random() < 0.5:           # nested: (a . b) . c, also with twice the same operator
+            s = S.reg('CompoundPixelRegion', region1=s, region2=leaf(), operator=rng.choice(['and', 'or', 'xor', s['p']['operator']]))
     else:
         leaf = lambda: gen.sky_region_spec(rng, classes=gen.SKY_SIMPLE + gen.SKY_ANNULI, include='absent')
         s = S.reg('CompoundSkyRegion', region1=leaf(), region2=leaf(), operator=rng.choice(['and', 'or', 'xor']))
+        if rng.random() < 0.5:
+            s = S.reg('CompoundSkyRegion', region1=s, region2=leaf(), operator=rng.choice(['and', 'or', 'xor', s['p']['operator']]))
     if not s['cls'].startswith('Compound'):
         s['meta'] = gen.rich_meta(rng)
         s['visual'] = gen.rich_visual(rng)
@@ -181,6 +185,30 @@ def perturbations(region, prng):
                 m6 = _copy.deepcopy(d)
                 dict.__setitem__(m6, k, None)
                 yield f'{attr}[{k!r}] set to None', rebuild(**{attr: m6})
+    # keys that both dictionaries accept: meta and visual are two separate sets of entries
+    import regions
+    both = sorted(set(regions.RegionMeta.valid_keys) & set(regions.RegionVisual.valid_keys))
+    if both:
+        k = prng.choice(both)
+        # the entry only in meta vs only in visual
+        m7, v7 = _copy.deepcopy(region.meta), _copy.deepcopy(region.visual)
+        m8, v8 = _copy.deepcopy(region.meta), _copy.deepcopy(region.visual)
+        dict.pop(m7, k, None), dict.pop(v7, k, None), dict.pop(m8, k, None), dict.pop(v8, k, None)
+        m7[k] = 1
+        v8[k] = 1
+        yield f'meta[{k!r}] moved to visual', (rebuild(meta=m7, visual=v7), rebuild(meta=m8, visual=v8))
+        # the entry in both, only the meta one differs
+        m9, v9 = _copy.deepcopy(m7), _copy.deepcopy(v8)
+        m10 = _copy.deepcopy(m9)
+        m10[k] = 0
+        yield f'meta[{k!r}] changed while visual[{k!r}] is the same', (rebuild(meta=m9, visual=v9), rebuild(meta=m10, visual=v9))
+    # compounds: the same leaves and operators in the same left-to-right order, grouped the other way
+    if type(region).__name__.startswith('Compound') and type(region.region1) is type(region):
+        inner = region.region1
+        cls = type(region)
+        regrouped = cls(inner.region1, cls(inner.region2, region.region2, region.operator, meta=_copy.deepcopy(inner.meta), visual=_copy.deepcopy(inner.visual)),
+                        inner.operator, meta=_copy.deepcopy(region.meta), visual=_copy.deepcopy(region.visual))
+        yield 'region1/region2 regrouped ((a.b).c -> a.(b.c))', regrouped
 
 
 def unit_reexpressed(region):
@@ -289,7 +317,7 @@ def run_case(case, obs):
     # --- copy with changes differs in exactly the named field
     parts0 = S.fp_parts(region)
     for label, pert in perturbations(region, prng):
-        if pert is None or '.' in label.split(' ')[0] and label.split('.')[0] not in region._params:
+        if pert is None or isinstance(pert, tuple) or '.' in label.split(' ')[0] and label.split('.')[0] not in region._params:
             continue
         field = label.split(' ')[0].split('.')[0].split('[')[0]
         if field not in list(region._params) + ['meta', 'visual']:
@@ -318,6 +346,10 @@ def run_case(case, obs):
         if pert is None:
             continue
         obs.count('perturbations')
+        if isinstance(pert, tuple):          # a pair of variants of the region that differ from each other in the named way
+            eq_bool(obs, pert[0], pert[1], False, 'eq-misses-field:' + label.split('[')[0], f'{cname}: regions differing in {label} compare equal', 'perturbed-unequal')
+            eq_bool(obs, pert[1], pert[0], False, 'eq-misses-field-reversed', f'{cname}: (reversed) regions differing in {label} compare equal', 'perturbed-unequal')
+            continue
         eq_bool(obs, region, pert, False, 'eq-misses-field:' + label.split(' ')[0].split('[')[0].split('.')[-1 if label.startswith('region') else 0],
                 f'{cname}: regions differing in {label} compare equal', 'perturbed-unequal')
         eq_bool(obs, pert, region, False, 'eq-misses-field-reversed', f'{cname}: (reversed) regions differing in {label} compare equal', 'perturbed-unequal')
